@@ -9,9 +9,13 @@
 EXTENDS WKTRender, Json, IOUtils
 Recs == ndJsonDeserialize(IOEnv.TRACEFILE)
 ReadsAs(o, g) == o.vclass = "acc" /\ o.l = g.l /\ o.tree = Strip(g)
+\* A result is a value: the bytes an encoder handed out still hold what they held at the return when the same entry point has
+\* been called again (the driver keeps the previous result of every entry point alive and lists the ones that changed).
+Overwritten(r) == IF "overwritten" \in DOMAIN r THEN r.overwritten ELSE <<>>
 Clause(r) ==
   LET g == r.case.g IN
   CASE r.ev # "ok" -> r.ev
+    [] Overwritten(r) # <<>> -> "result-overwritten-by-a-later-call"
     [] ~r.encok -> "encode-error"
     \* the independent reader (the parser specification) must read the encoder's tokens back to g; WHICH standard
     \* rendering the encoder picks (bare or parenthesised multipoint members, ...) is not prescribed
